@@ -20,10 +20,10 @@
   All statements hold for EVERY network and EVERY carrier `[TrigScalar K]` (the coefficients do not matter),
   for the call however deep the recursion through `singular_coords` went: they are about the last inner
   call, run on `u.net` (the network as the call leaves it).
-  `RowsOK` asks for distinct columns in a sparse row: that is FALSE for an observation two of whose roles
-  name one point (`dh` from a point to itself, an angle with `bs = fs`; `C01_pe_rowsOK_needs_noalias` is the
-  evaluated counterexample) — the hypothesis `NoAlias` of `C01_pe_rowsOK` is exactly that; everything else
-  has no hypothesis.
+  `RowsOK` asked for distinct columns in a sparse row until round 11: FALSE for an observation two of whose roles
+  name one point (`dh` from a point to itself, an angle with `bs = fs`), hence the former hypothesis `NoAlias`.  Since
+  rounds 11/12 `RowsOK` is the range condition only (repeated column indices add up in `Problem.dense` as in every C++
+  consumer), `C01_pe_rowsOK` holds for every network, and NO theorem of this file has a hypothesis beyond the call.
 -/
 import Gama.Lemmas.ProjectEquationsExample
 import Gama.Lemmas.ProjectEquationsOri
@@ -63,22 +63,18 @@ theorem C01_pe_same_observations (net : PE.Net K) (np : Ls.Net.NetProblem K) (u 
   obtain ⟨net', a, F⟩ := pe_final net np u h
   rw [F.u_net]; exact F.below.shape
 
-/-- **`RowsOK`** (the hypothesis of every `C01_net_*` theorem): distinct in-range columns per sparse row,
-    provided no revised observation names one point in two roles -/
+/-- **`RowsOK`** (the hypothesis of every `C01_net_*` theorem; since round 11 the RANGE condition only: column indices of
+    every sparse row inside `1..n`) holds for the output of `project_equations()` for EVERY network.  Until round 11 it
+    also said "distinct columns" and needed `NoAlias` (no revised observation names one point in two roles); repeated
+    column indices now add up in every consumer of a sparse row (`Problem.dense`), in the model as in the C++ -/
 theorem C01_pe_rowsOK (net : PE.Net K) (np : Ls.Net.NetProblem K) (u : Unknowns K)
-    (h : projectEquations net = .ok (np, u)) (hna : ∀ ob ∈ revisedObs u.net, NoAlias ob) :
-    Ls.RowsOK (Ls.Net.toProblem np) := by
-  -- round 11: `RowsOK` is the range condition only; `hna` is no longer used (kept for the callers)
-  obtain ⟨_, _, _, hr⟩ := C01_pe_rows_in_range net np u h
-  exact fun i hi => hr i hi
-
-/-- **`RowsOK` WITHOUT `NoAlias`** (round 11): since `RowsOK` is the range condition only (repeated column indices add up
-    in every consumer of a sparse row), the output of `project_equations()` satisfies it for EVERY network — an observation
-    that names one point in two roles included -/
-theorem C01_pe_rowsOK_aliased (net : PE.Net K) (np : Ls.Net.NetProblem K) (u : Unknowns K)
     (h : projectEquations net = .ok (np, u)) : Ls.RowsOK (Ls.Net.toProblem np) := by
   obtain ⟨_, _, _, hr⟩ := C01_pe_rows_in_range net np u h
   exact fun i hi => hr i hi
+
+/-- the name under which round 11 introduced the `NoAlias`-free form (now the same statement as `C01_pe_rowsOK`) -/
+theorem C01_pe_rowsOK_aliased (net : PE.Net K) (np : Ls.Net.NetProblem K) (u : Unknowns K)
+    (h : projectEquations net = .ok (np, u)) : Ls.RowsOK (Ls.Net.toProblem np) := C01_pe_rowsOK net np u h
 
 /-- **clusters partition the rows** (`hdim` of the `C01_net_*` theorems, instance-free form): the numbers
     `activeObs()` of the clusters that have active observations add up to `pocmer_` -/
@@ -246,7 +242,7 @@ theorem C01_pe_dimsN (t : TrigFns K) (net : PE.Net K) (np : NetProblem K) (u : U
     satisfy `r = A x − b`, `AᵀP r = 0`, `[pvv] = rᵀP r`, `x ⟂_S ker A` for the ORIGINAL system, `P = m0²·Σ⁻¹` -/
 theorem C01_net_facade_of_project_equations (hsq : IsSqrt (SqrtFn.sq : K → K)) (t : TrigFns K) (alg : Alg)
     (halg : alg ≠ .env) (net : PE.Net K) (np : NetProblem K) (u : Unknowns K)
-    (hpe : @projectEquations K (trigOfField t) net = .ok (np, u)) (hna : ∀ ob ∈ revisedObs u.net, NoAlias ob)
+    (hpe : @projectEquations K (trigOfField t) net = .ok (np, u))
     (hm0 : np.m0 ≠ 0)
     (Pc : Matrix (Fin (toProblem np).m) (Fin (toProblem np).m) K) (hPc : Sigma np * Pc = 1)
     (hsol : ∀ hh s, prepare np = .ok hh → solverOf alg (Net.dotProblem np hh) = .ok s →
@@ -256,12 +252,12 @@ theorem C01_net_facade_of_project_equations (hsq : IsSqrt (SqrtFn.sq : K → K))
     IsLSSolution (toProblem np).A (toProblem np).b ((np.m0 * np.m0) • Pc) (toProblem np).S
       (toVec (toProblem np).n a.x) (toVec (toProblem np).m a.r) a.pvv :=
   C01_net_facade hsq alg halg np (C01_pe_dimsN t net np u hpe)
-    (@C01_pe_rowsOK K (trigOfField t) net np u hpe hna) hm0 Pc hPc hsol a h
+    (@C01_pe_rowsOK K (trigOfField t) net np u hpe) hm0 Pc hPc hsol a h
 
 /-- **`C01_net_envelope` without `hdim` and `RowsOK`** -/
 theorem C01_net_envelope_of_project_equations (hsq : IsSqrt (SqrtFn.sq : K → K)) (t : TrigFns K)
     (net : PE.Net K) (np : NetProblem K) (u : Unknowns K)
-    (hpe : @projectEquations K (trigOfField t) net = .ok (np, u)) (hna : ∀ ob ∈ revisedObs u.net, NoAlias ob)
+    (hpe : @projectEquations K (trigOfField t) net = .ok (np, u))
     (hm0 : np.m0 ≠ 0)
     (Pc : Matrix (Fin (toProblem np).m) (Fin (toProblem np).m) K) (hPc : Sigma np * Pc = 1)
     (hreg : Env.RegListOK (toProblem np)) (hU : Env.SolveUnambiguous (toProblem np))
@@ -269,14 +265,14 @@ theorem C01_net_envelope_of_project_equations (hsq : IsSqrt (SqrtFn.sq : K → K
     IsLSSolution (toProblem np).A (toProblem np).b ((np.m0 * np.m0) • Pc) (toProblem np).S
       (toVec (toProblem np).n a.x) (toVec (toProblem np).m a.r) a.pvv :=
   C01_net_envelope hsq np (C01_pe_dimsN t net np u hpe)
-    (@C01_pe_rowsOK K (trigOfField t) net np u hpe hna) hm0 Pc hPc hreg hU a h
+    (@C01_pe_rowsOK K (trigOfField t) net np u hpe) hm0 Pc hPc hreg hU a h
 
-/-- the dense matrix `A` of the base class before homogenisation IS the sparse matrix (repeated columns do not
-    occur under `NoAlias`): "dense and sparse forms agree" -/
+/-- the dense matrix `A` of the base class before homogenisation IS the matrix of the sparse rows (both add up the
+    coefficients a row stores with the same column index; no `NoAlias` needed): "dense and sparse forms agree" -/
 theorem C01_pe_dense_is_sparse (t : TrigFns K) (net : PE.Net K) (np : NetProblem K) (u : Unknowns K)
-    (hpe : @projectEquations K (trigOfField t) net = .ok (np, u)) (hna : ∀ ob ∈ revisedObs u.net, NoAlias ob) :
+    (hpe : @projectEquations K (trigOfField t) net = .ok (np, u)) :
     toMatrix (toProblem np).m (toProblem np).n (denseA np) = (toProblem np).A :=
-  denseA_eq np (@C01_pe_rowsOK K (trigOfField t) net np u hpe hna)
+  denseA_eq np (@C01_pe_rowsOK K (trigOfField t) net np u hpe)
 
 end facade
 
